@@ -92,8 +92,9 @@ func (g *Global) aboveLocked(root *types.Package) map[*types.Package]bool {
 }
 
 type writeSet struct {
-	keys map[string]bool
-	all  bool
+	keys  map[string]bool
+	all   bool
+	fresh map[string]bool // keys written only through addresses of objects allocated by the same function
 }
 
 func loadProgram(repo string, patterns []string) (*Global, error) {
@@ -617,6 +618,14 @@ func (g *Global) addrKeys(v ssa.Value, ws *writeSet, depth int) {
 		return
 	}
 	if freshBase(v, 0) {
+		// record separately: irrelevant for callers, but a loop containing the store still changes the key
+		if ws.fresh != nil && depth == 0 {
+			sub := &writeSet{keys: map[string]bool{}}
+			g.addrKeysNoFresh(v, sub)
+			for k := range sub.keys {
+				ws.fresh[k] = true
+			}
+		}
 		return
 	}
 	switch a := v.(type) {
@@ -664,6 +673,31 @@ func (g *Global) addrKeys(v ssa.Value, ws *writeSet, depth int) {
 			if g.curInRepo {
 				ws.keys["?ptr:"+sortOf(pt.Elem())+"|"+pt.Elem().String()] = true
 			}
+		}
+	}
+}
+
+// addrKeysNoFresh: the keys a store through v touches, ignoring freshness.
+func (g *Global) addrKeysNoFresh(v ssa.Value, ws *writeSet) {
+	switch a := v.(type) {
+	case *ssa.FieldAddr:
+		st := a.X.Type().Underlying().(*types.Pointer).Elem()
+		g.fieldKeys(st, st.Underlying().(*types.Struct).Field(a.Field), ws)
+	case *ssa.IndexAddr:
+		switch t := a.X.Type().Underlying().(type) {
+		case *types.Slice:
+			g.elemKeys(t.Elem(), ws)
+		case *types.Pointer:
+			if at, ok := t.Elem().Underlying().(*types.Array); ok && isStruct(at.Elem()) {
+				g.structKeys(at.Elem(), ws)
+			}
+		}
+	case *ssa.Alloc:
+		elem := a.Type().(*types.Pointer).Elem()
+		if isStruct(elem) {
+			g.structKeys(elem, ws)
+		} else if a.Heap {
+			g.cellKeys(elem, ws)
 		}
 	}
 }
@@ -740,17 +774,53 @@ func (g *Global) instrDirect(in ssa.Instruction, ws *writeSet) {
 	case *ssa.MapUpdate:
 		if !freshBase(x.Map, 0) {
 			g.mapKeysW(x.Map.Type().Underlying().(*types.Map), ws)
+		} else if ws.fresh != nil {
+			sub := &writeSet{keys: map[string]bool{}}
+			g.mapKeysW(x.Map.Type().Underlying().(*types.Map), sub)
+			for k := range sub.keys {
+				ws.fresh[k] = true
+			}
 		}
 		ws.keys["$alloc"] = true
 	case *ssa.Alloc:
 		if x.Heap || isStruct(x.Type().(*types.Pointer).Elem()) {
 			ws.keys["$alloc"] = true
+			if ws.fresh != nil {
+				sub := &writeSet{keys: map[string]bool{}}
+				g.addrKeysNoFresh(x, sub)
+				for k := range sub.keys {
+					ws.fresh[k] = true
+				}
+			}
 		}
-	case *ssa.MakeMap, *ssa.MakeSlice:
+	case *ssa.MakeMap:
 		ws.keys["$alloc"] = true
+		if ws.fresh != nil {
+			sub := &writeSet{keys: map[string]bool{}}
+			g.mapKeysW(x.Type().Underlying().(*types.Map), sub)
+			for k := range sub.keys {
+				ws.fresh[k] = true
+			}
+		}
+	case *ssa.MakeSlice:
+		ws.keys["$alloc"] = true
+		if ws.fresh != nil {
+			sub := &writeSet{keys: map[string]bool{}}
+			g.elemKeys(x.Type().Underlying().(*types.Slice).Elem(), sub)
+			for k := range sub.keys {
+				ws.fresh[k] = true
+			}
+		}
 	case *ssa.MakeInterface:
 		if isStruct(x.X.Type()) {
 			ws.keys["$alloc"] = true
+			if ws.fresh != nil {
+				sub := &writeSet{keys: map[string]bool{}}
+				g.structKeys(x.X.Type(), sub)
+				for k := range sub.keys {
+					ws.fresh[k] = true
+				}
+			}
 		}
 	case *ssa.MakeClosure:
 		ws.keys["$alloc"] = true
@@ -764,8 +834,16 @@ func (g *Global) instrDirect(in ssa.Instruction, ws *writeSet) {
 		if b, ok := c.Value.(*ssa.Builtin); ok {
 			switch b.Name() {
 			case "append", "copy":
-				if sl, ok := c.Args[0].Type().Underlying().(*types.Slice); ok && !freshBase(c.Args[0], 0) {
-					g.elemKeys(sl.Elem(), ws)
+				if sl, ok := c.Args[0].Type().Underlying().(*types.Slice); ok {
+					if !freshBase(c.Args[0], 0) {
+						g.elemKeys(sl.Elem(), ws)
+					} else if ws.fresh != nil {
+						sub := &writeSet{keys: map[string]bool{}}
+						g.elemKeys(sl.Elem(), sub)
+						for k := range sub.keys {
+							ws.fresh[k] = true
+						}
+					}
 				}
 				ws.keys["$alloc"] = true
 			case "delete", "clear":
@@ -1059,7 +1137,13 @@ func (g *Global) staticType(e Expr, fn *ssa.Function, u *Unit) types.Type {
 
 // instrWrites: keys possibly written by one instruction (including callees).
 func (g *Global) instrWrites(fn *ssa.Function, in ssa.Instruction) (map[string]bool, bool) {
-	ws := &writeSet{keys: map[string]bool{}}
+	ws, _ := g.instrWritesFresh(fn, in)
+	return ws.keys, ws.all
+}
+
+// instrWritesFresh: like instrWrites, plus the keys written only at objects allocated by fn itself.
+func (g *Global) instrWritesFresh(fn *ssa.Function, in ssa.Instruction) (*writeSet, bool) {
+	ws := &writeSet{keys: map[string]bool{}, fresh: map[string]bool{}}
 	g.mu.Lock()
 	g.instrDirect(in, ws)
 	g.mu.Unlock()
@@ -1086,7 +1170,7 @@ func (g *Global) instrWrites(fn *ssa.Function, in ssa.Instruction) (map[string]b
 			}
 		}
 	}
-	return ws.keys, ws.all
+	return ws, ws.all
 }
 
 // callWrites: write set of a call site (all possible callees by CHA).
